@@ -1,19 +1,20 @@
 #!/bin/bash
-# confirm_seed.sh <seed-id>: scratch worktree of /repo HEAD + patch -> build, pinned suite, demo on both trees; writes seeded/<id>/confirm.json
-id=$1; S=/verif/seeded/$id; W=/tmp/confirm_$id
-rm -rf $W; git -C /repo worktree prune; git -C /repo worktree add --detach $W/wt HEAD >/dev/null 2>&1 || { echo "worktree failed"; exit 2; }
-cd $W/wt && git apply $S/patch.diff || { echo "patch does not apply"; git -C /repo worktree remove --force $W/wt; exit 2; }
-cmake -G Ninja -S $W/wt -B $W/build -DCMAKE_BUILD_TYPE=RelWithDebInfo >/dev/null 2>&1
-cmake --build $W/build -j12 >$W/build.log 2>&1; brc=$?
-EXP="cmake-test assert-test clock-test common-test error-test expr-writer-test option-test problem-builder-test problem-test rstparser-test safeint-test sp-test suffix-test"
-ctest --test-dir $W/build -j8 --timeout 900 >$W/ctest.log 2>&1
-ok=1; for t in $EXP; do grep -q " $t \.*[ ]*Passed" $W/ctest.log || { ok=0; echo "baseline test $t not passing"; }; done
+# confirm_seed.sh <seed-id> [jobs]: independent confirmation of a seeded change in a scratch worktree of /repo HEAD:
+#   patch applies; tree builds; all 439 pinned tests (gtest-case level, tools/suite.sh) pass; the demo exits 0 on /repo and non-zero on the patched tree.
+# Writes seeded/<id>/confirm.json.  The worktree and its build are removed afterwards.
+id=$1; j=${2:-6}; S=/verif/seeded/$id; W=/tmp/confirm_$id
+rm -rf $W; mkdir -p $W; git -C /repo worktree prune
+git -C /repo worktree add --detach $W/wt HEAD >/dev/null 2>&1 || { echo "worktree failed"; exit 2; }
+( cd $W/wt && git apply $S/patch.diff ) || { echo "patch does not apply"; git -C /repo worktree remove --force $W/wt; exit 2; }
+/verif/tools/suite.sh $W/wt $W/build $j > $W/suite.log 2>&1; src=$?
+cp $W/build/../wt/src/expr-info.cc /dev/null 2>&1
 sh $S/demo/run.sh /repo >$W/demo_orig.log 2>&1; d0=$?
 sh $S/demo/run.sh $W/wt >$W/demo_mut.log 2>&1; d1=$?
 python3 - <<P
 import json
-json.dump({'seed':'$id','build_rc':$brc,'baseline_13_pass':bool($ok),'demo_unchanged_rc':$d0,'demo_mutated_rc':$d1,
- 'confirmed': ($brc==0 and $ok==1 and $d0==0 and $d1!=0),
+suite=open('$W/suite.log').read()
+json.dump({'seed':'$id','suite_rc':$src,'suite_line':[l for l in suite.split('\n') if l.startswith('SUITE')][-1:], 'demo_unchanged_rc':$d0,'demo_mutated_rc':$d1,
+ 'confirmed': ($src==0 and $d0==0 and $d1!=0),
  'demo_mutated_tail': open('$W/demo_mut.log').read()[-400:]}, open('$S/confirm.json','w'), indent=1)
 print(open('$S/confirm.json').read())
 P
